@@ -16,7 +16,8 @@ HEADINGS = {'High': '## High Risk\n', 'Medium': '## Medium Risk\n', 'Low': '## L
 def shapes_for(chk, cat):
     table = [v for v, _ in rl.CATS[cat]['table']]
     out = []
-    file_shapes = [[1], [2], [1, 1], [2, 1]] if chk.quick else [[1], [2], [3], [1, 1], [2, 1], [1, 2, 1]]
+    # 0 = a file entry with an empty line set (`any line sets`): it contributes no entry, and alone it is not a finding
+    file_shapes = [[1], [2], [1, 1], [2, 1], [0], [0, 1], [2, 0], [0, 0]] if chk.quick else [[1], [2], [3], [1, 1], [2, 1], [1, 2, 1], [0], [0, 1], [2, 0], [0, 0], [1, 0, 2]]
     for v in table:
         for fs in file_shapes:
             out.append([(v, fs)])
@@ -178,10 +179,12 @@ def full_report(chk):
     e = chk.engine()
     f = e.func('generate_report')
     secs = {c: setup(e, c) for c in rl.CATS}
-    for mask in itertools.product((False, True), repeat=3):
+    # per category: no entry at all / findings / only file entries with empty line sets (= no findings)
+    for mask3 in itertools.product((False, True, 'empty'), repeat=3):
         fs = {}
-        for cat, on, v in zip(('vul', 'opt', 'qa'), mask, ('FloatingPragma', 'Sstore', 'ConstructorOrder')):
-            fs[cat] = rl.Findings(cat, [(v, [1])] if on else [], tag=cat)
+        mask = tuple(x is True for x in mask3)
+        for cat, on, v in zip(('vul', 'opt', 'qa'), mask3, ('FloatingPragma', 'Sstore', 'ConstructorOrder')):
+            fs[cat] = rl.Findings(cat, [(v, [1])] if on is True else ([(v, [0])] if on == 'empty' else []), tag=cat)
         base = sum((x.base for x in fs.values()), [])
         paths = e.explore(lambda en: en.call_mir(f, [fs['vul'].value(), fs['opt'].value(), fs['qa'].value()]), base_constraints=base)
         for r in paths:
@@ -211,8 +214,9 @@ def full_report(chk):
             if good and pos == len(text):
                 chk.ok()
             else:
-                chk.violation('full:report:category-parts', 'generate_report with categories (vul, opt, qa) = %r does not consist of exactly the parts of the non-empty categories' % (mask,), {})
-    chk.sample({'generate_report': 'all 8 combinations of empty / non-empty categories, one write to solstat_report.md'})
+                chk.violation('full:report:category-parts', 'generate_report with categories (vul, opt, qa) = %r (True: findings, False: no entry, empty: only file entries without lines) does not consist of exactly the parts of the categories that have findings' % (mask3,),
+                              {'job': 'fullreport', 'categories': [str(x) for x in mask3]})
+    chk.sample({'generate_report': 'all 27 combinations of absent / with findings / only empty line sets per category, one write to solstat_report.md'})
 
 
 class _Flat(Str):
